@@ -1,6 +1,8 @@
 import RbV.Spec.Align
 import RbV.Ref.Gotoh
 import RbV.Basic.AlignCodec
+import RbV.Lemmas.AlignRev
+import RbV.Model.PairwiseCustom
 /-!
 # C01 — pairwise alignment is optimal and its reported path achieves the reported score
 
@@ -52,6 +54,54 @@ theorem table_eq_best (sc : Sc) (x y : List Nat) : rows sc x y = specRows sc x y
 theorem valid_iff_has_score (sc : Sc) (st : St) (x y : List Nat) (ops : List Op) :
     valid x y ops = true ↔ ∃ v, score sc st x y ops = some v :=
   valid_iff_score sc st x y ops
+
+def scU' : Sc := ⟨fun a b => if a = b then 1 else -1, -5, -1⟩
+
+/-! ### [C] Mirror model of `Aligner::custom` (`RbV/Model/PairwiseCustom.lean`)
+
+The model follows the Rust code statement by statement (rolling columns, `Lx/Ly/Sn`, traceback cells, post-loops,
+traceback state machine) and is *run* by the driver on every call: in the quick and thorough tiers it reproduces the
+implementation's whole `Alignment` value (score, coordinates, operations, tie-breaks included) on every call
+(tag `model=impl`; a difference would be tag `drift-*`, never a violation).
+
+Full refinement statement (NOT proved; kept here so that it stays visible):
+
+    theorem custom_score_eq_opt (sc : Sc) (cl : Clip) (x y : List Nat)
+        (hgo : sc.go ≤ 0) (hge : sc.ge ≤ 0) (hcl : cl.xp ≤ 0 ∧ cl.xs ≤ 0 ∧ cl.yp ≤ 0 ∧ cl.ys ≤ 0)
+        (hsane : Sane sc cl x y)      -- |scores| ≤ 2¹⁰, lengths ≤ 64, clips ∈ {MIN_SCORE} ∪ [−2¹⁰, 0]: MIN_SCORE acts as −∞
+        : ∃ o, Model.Pairwise.custom sc cl x y = some o ∧ accept sc cl false x y o = true
+
+Plan: (1) the forward (prefix) reading of the affine score equals the backward (suffix) reading used by `best` —
+proved below as `custom_score_eq_opt_partial` / `best_prefix_suffix_symmetry`; (2) invariant of `fill`: after column
+j, `S[j%2][i]`, `I[j%2][i]`, `D[j%2][i]` are the optima over alignments of sub-ranges ending at (i, j) in the
+respective layer, with prefix clips charged, and `Sn[i]`, `S[·][m]` the best suffix-clipped continuations; (3) the
+traceback follows cells whose recorded predecessor attains the cell's value, so the emitted operations recompute to
+`score`.  Steps (2) and (3) are open. -/
+
+/-- **Proved fragment (step 1 of `custom_score_eq_opt`)**: the score of an operation list is invariant under
+reversing both sequences and the list — a run of k insertions/deletions costs `go + k·ge` from either end — so the
+prefix-indexed matrix of the code and the suffix-recursive specification talk about the same quantity. -/
+theorem custom_score_eq_opt_partial (sc : Sc) (ops : List Op) (x y : List Nat) (v : Int)
+    (h : score sc .none x y ops = some v) : score sc .none x.reverse y.reverse ops.reverse = some v :=
+  score_reverse sc ops x y v h
+
+/-- consequence: the optimum of the reversed problem equals the optimum of the original one -/
+theorem best_prefix_suffix_symmetry (sc : Sc) (x y : List Nat) :
+    best sc .none x.reverse y.reverse = best sc .none x y :=
+  best_reverse sc x y
+
+/-- scores compose along a split of both sequences (the step that lets a column-by-column DP extend alignments) -/
+theorem score_splits (sc : Sc) (ops1 : List Op) (st : St) (x1 y1 : List Nat) (v1 : Int)
+    (h : score sc st x1 y1 ops1 = some v1) (x2 y2 : List Nat) (ops2 : List Op) :
+    score sc st (x1 ++ x2) (y1 ++ y2) (ops1 ++ ops2) = (score sc (lastSt st ops1) x2 y2 ops2).map (· + v1) :=
+  score_append sc ops1 st x1 y1 v1 h x2 y2 ops2
+
+-- non-vacuity: M I I D on (ACC, AG) scores 1 − 7 − 6 = −12 forwards and backwards (D I I M on (CCA, GA))
+example : score scU' .none [0, 1, 1] [0, 2] [.mat, .ins, .ins, .del] = some (-12) := by decide +kernel
+example : score scU' .none [1, 1, 0] [2, 0] [.del, .ins, .ins, .mat] = some (-12) := by decide +kernel
+-- the mirror model on a concrete call (module-doc style: x prefix clip −1, x suffix clip −2)
+example : Model.Pairwise.custom scU' ⟨-1, -2, minScore, minScore⟩ [0, 1, 1, 0] [1, 1] =
+    some ⟨-1, 1, 3, 0, 2, 4, 2, [.xclip 1, .core .mat, .core .mat, .xclip 1]⟩ := by decide +kernel
 
 /-! ### Non-vacuity: concrete instances for each mode (unit scores: match 1, mismatch −1, go −5, ge −1) -/
 
